@@ -64,12 +64,12 @@ async def outcome(coro):
         return (type(e).__name__, asyncio.get_running_loop().time(), e)
 
 
-SCENARIOS = ("rstack-in-time", "error-in-time", "nothing", "rstack-late", "rstack-twice", "rstack-before", "loss", "other-frames")
+SCENARIOS = ("rstack-in-time", "error-in-time", "nothing", "rstack-late", "rstack-twice", "rstack-before", "loss", "other-frames", "data-then-rstack")
 
 
 class Reset(Harness):
     name = "c11_reset"
-    must_reach = ("completed", "timeout", "wrong-code", "error-frame", "late", "lost-clean", "lost-exc", "second-reset", "renumbered")
+    must_reach = ("completed", "timeout", "wrong-code", "error-frame", "late", "lost-clean", "lost-exc", "second-reset", "renumbered", "data-before-rstack")
     functions = ("Gateway.reset", "Gateway.reset_received", "Gateway.connection_lost", "Gateway._reset_cleanup",
                  "AshProtocol.send_reset", "AshProtocol.rstack_frame_received", "AshProtocol.error_frame_received")
 
@@ -85,6 +85,9 @@ class Reset(Harness):
         else:
             tx = (0, 7)[ctx.choice("tx", 2)]
             rx = (0, 6)[ctx.choice("rx", 2)]
+        dfrm = 0
+        if sc == "data-then-rstack":
+            dfrm = (0, rx, (rx + 1) % 8)[ctx.choice("dfrm", 3)]
         loss_exc = None
         loss_at = 0
         if sc == "loss":
@@ -119,6 +122,11 @@ class Reset(Harness):
                 expect_ok = True
             elif sc == "rstack-before":
                 pass  # the early RSTACK must not satisfy this request
+            elif sc == "data-then-rstack":
+                # a DATA frame the NCP had queued before it saw the RST arrives first (own callback), then the RSTACK
+                loop.call_later(0.1, p.data_received, wire(R.data_frame(dfrm, 0, 0, [4, 5, 6])))
+                loop.call_later(0.2, p.data_received, wire(R.rstack_frame(SW)))
+                expect_ok = True
             elif sc == "other-frames":
                 loop.call_later(0.1, p.data_received, wire(R.ack_frame(1)))
                 loop.call_later(0.2, p.data_received, wire(R.nak_frame(0)))
@@ -149,6 +157,8 @@ class Reset(Harness):
                 await asyncio.sleep(T + 1)
                 ctx.observe(sc, kind, round(t_end - t0, 4), loss_exc)
                 return
+            if sc == "data-then-rstack":
+                ctx.label("data-before-rstack")
             if expect_ok:
                 ctx.label("completed")
                 ctx.check(kind == "ok", "software-reset RSTACK arrived in time but reset() ended with %s" % kind, "sw-rstack-not-completing")
@@ -167,7 +177,7 @@ class Reset(Harness):
                 ctx.check(len(fails) == 1, "%s with code 0x%02X reported as NCP failure %d times" % (sc, code, len(fails)), "failure-report-count")
                 if fails:
                     ctx.check(int(fails[0][2]) == code, "failure reported with code %r, frame carried 0x%02X" % (fails[0][2], code), "failure-code")
-            if sc in ("nothing", "rstack-late", "rstack-twice", "rstack-before", "other-frames"):
+            if sc in ("nothing", "rstack-late", "rstack-twice", "rstack-before", "other-frames", "data-then-rstack"):
                 ctx.check(not fails, "NCP failure reported in scenario %s" % sc, "spurious-failure")
             if sc == "rstack-late":
                 ctx.label("late")
